@@ -44,6 +44,8 @@ func worldSpec() map[string]spec.V {
 		"pst":  {K: "pstruct", M: map[string]spec.V{"Name": sv("string", "Bob")}},
 		"np":   {K: "nilptr"},
 		"ns":   {K: "nilS"},
+		"ndec": {K: "nildec"}, // (*decimal.Big)(nil)
+		"fnND": {K: "func", F: &spec.Fn{Name: "fnND", Ret: "nildec"}},
 		"nsl":  {K: "nilstrs"},   // []string(nil)
 		"nmp":  {K: "nilmap"},    // map[string]interface{}(nil)
 		"nmi":  {K: "nilmapint"}, // map[string]int(nil)
